@@ -81,6 +81,16 @@ theorem c13_reflect_guards (x h xend posneg u : K) :
   ⟨dopri5_lastGuard_reflect x h xend posneg, dop853_lastGuard_reflect x h xend posneg, rk23_lastGuard_reflect x h xend posneg,
    dopri5_underflow_reflect h x u, dop853_underflow_reflect h x u, rk23_underflow_reflect h x⟩
 
+/-- the stiffness-detection quotient of DOPRI5 / DOP853 does not depend on the direction of integration -/
+theorem c13_reflect_stiff {n : Nat} (k2 k6 y k1 k3 k4 k5 y1 : Vector K n) (h hl : K) :
+    (Gen.Dop853.stiff (k4 := vneg k4) (k3 := vneg k3) (k5 := k5) (y1 := y1) (h := -h) (hlamb := hl)).hlamb
+      = (Gen.Dop853.stiff (k4 := k4) (k3 := k3) (k5 := k5) (y1 := y1) (h := h) (hlamb := hl)).hlamb ∧
+    (Gen.Dopri5.stiff (k2 := vneg k2) (k6 := vneg k6) (y := y) (h := -h) (k1 := vneg k1) (k3 := vneg k3) (k4 := vneg k4)
+        (k5 := vneg k5) (y1 := y1) (hlamb := hl)).hlamb
+      = (Gen.Dopri5.stiff (k2 := k2) (k6 := k6) (y := y) (h := h) (k1 := k1) (k3 := k3) (k4 := k4) (k5 := k5) (y1 := y1)
+        (hlamb := hl)).hlamb :=
+  ⟨dop853_stiff_reflect k4 k3 k5 y1 h hl, dopri5_stiff_reflect k2 k6 y k1 k3 k4 k5 y1 h hl⟩
+
 theorem c13_reflect_norm {n : Nat} (atol rtol y y1 e : Vector K n) :
     Gen.Dopri5.errnorm (atol := atol) (rtol := rtol) (y := y) (y1 := y1) (k4 := vneg e)
       = Gen.Dopri5.errnorm (atol := atol) (rtol := rtol) (y := y) (y1 := y1) (k4 := e) := dopri5_errnorm_even atol rtol y y1 e
